@@ -218,6 +218,30 @@ pub fn run(op: &str, rd: &mut Rd) -> Option<R> {
             let n = s.nearest(p, acc);
             Ok(format!("{} {}", e(n.t), e(n.distance_sq)))
         })(),
+        // flatten
+        "path.flatten" => (|| -> R {
+            let tol = rd.num()?; let p = rd.els()?;
+            let mut out = vec![];
+            flatten(p, tol, |el| out.push(el));
+            Ok(e_els(out))
+        })(),
+        "path.flatten_meta" => (|| -> R {
+            // cumulative output length after each input element | flatten(path, tol) | flatten(4*path, 4*tol) scaled back by 1/4
+            let tol = rd.num()?; let p = rd.els()?;
+            let mut cum = vec![];
+            for k in 1..=p.len() {
+                let mut cnt = 0usize;
+                flatten(p[..k].iter().copied(), tol, |_| cnt += 1);
+                cum.push(cnt.to_string());
+            }
+            let mut out = vec![];
+            flatten(p.iter().copied(), tol, |el| out.push(el));
+            let big = Affine::scale(4.0);
+            let small = Affine::scale(0.25);
+            let mut out4 = vec![];
+            flatten(p.iter().map(|el| big * *el), 4.0 * tol, |el| out4.push(small * el));
+            Ok(format!("{} | {} | {}", cum.join(" "), e_els(out), e_els(out4)))
+        })(),
         _ => return None,
     })
 }
